@@ -516,3 +516,37 @@ Proof. intros cap s Hc R H. exact (progress cap s (reachable_inv cap s R) Hc H).
 
 Lemma chan_bounded_reach : forall cap s, reachable cap s -> length (chan s) <= cap.
 Proof. intros cap s R. exact (i_cap cap s (reachable_inv cap s R)). Qed.
+
+(* ---------- registration in the loop: the fact-driven model is the model above ---------- *)
+
+Lemma run2_in_loop : forall cap es s2 s2', spawned s2 = [] -> run2 true cap s2 es = Some s2' ->
+  spawned s2' = [] /\ exists es0, run cap (base s2) es0 = Some (base s2').
+Proof.
+  induction es as [|e es IH]; intros s2 s2' Hs H; cbn [run2] in H.
+  - inversion H; subst. split; [assumption|]. exists []. reflexivity.
+  - destruct e as [e0|c o|c]; cbn [step2] in H; try discriminate.
+    destruct (step cap (base s2) e0) as [b|] eqn:E; [|discriminate].
+    destruct (IH (mkState2 b (spawned s2)) s2' Hs H) as [A [es0 B]].
+    split; [assumption|]. exists (e0 :: es0). cbn [run base] in *. rewrite E. assumption.
+Qed.
+
+Lemma run2_reachable : forall cap es s2, run2 true cap init2 es = Some s2 -> reachable cap (base s2) /\ spawned s2 = [].
+Proof.
+  intros cap es s2 H. destruct (run2_in_loop cap es init2 s2 eq_refl H) as [A [es0 B]].
+  split; [exists es0; assumption|assumption].
+Qed.
+
+From L4.gen Require Import Shape.
+
+Lemma wg_fact : layer4_listener_wg_add_before_go = true.
+Proof. vm_compute. reflexivity. Qed.
+
+(* every state the source's wrapper can reach (registration where the source has it) is a state
+   of the model the theorems are about *)
+Lemma source_model_reachable : forall cap es s2,
+  run2 layer4_listener_wg_add_before_go cap init2 es = Some s2 -> reachable cap (base s2) /\ spawned s2 = [].
+Proof. rewrite wg_fact. exact run2_reachable. Qed.
+
+Lemma source_no_panic : forall cap es s2,
+  run2 layer4_listener_wg_add_before_go cap init2 es = Some s2 -> panicked (base s2) = false.
+Proof. intros cap es s2 H. apply (no_panic_reach cap). apply (source_model_reachable cap es s2 H). Qed.
